@@ -527,8 +527,8 @@ sa_addr_to_str(const sockaddr_storage_t *addr, char *buf,
 		break;
 	case AF_INET:
 	case AF_INET6:
-		if (NULL == inet_ntop(addr->ss_family, sin_addr,
-		    buf, buf_size)) /* Size include terminating zero. */
+		if (NULL == inet_ntop(addr->ss_family, sin_addr, buf,
+		    (socklen_t)MIN(buf_size, INET6_ADDRSTRLEN))) /* Size include terminating zero; socklen_t is 32 bit. */
 			return (errno);
 		buf[(buf_size - 1)] = 0; /* Should be not nessesary. */
 		size_ret = strnlen(buf, buf_size);
@@ -581,8 +581,11 @@ sa_addr_port_to_str(const sockaddr_storage_t *addr, char *buf,
 
 	port = sa_port_get(addr);
 	if (0 != port) {
-		if (buf_size < (size_ret + 7)) {
-			size_ret += 7; /* 5 digits + ':' + zero. */
+		/* ':' + port digits + zero: exact, not 5 digits for any port. */
+		port_srt_size = ((10000 <= port) ? 5 : ((1000 <= port) ? 4 :
+		    ((100 <= port) ? 3 : ((10 <= port) ? 2 : 1))));
+		if (buf_size < (size_ret + 1 + port_srt_size + 1)) {
+			size_ret += (1 + port_srt_size + 1);
 			error = ENOSPC;
 			goto err_out;
 		}
